@@ -1,10 +1,12 @@
 import GoMailModel.Proofs.Armed
+import GoMailModel.Proofs.Legal6
 /-
   C04 — The SMTP dialogue stays legal and in step under every reply script.
-  First group of theorems (local legality facts). The session-level statement — the event trace of
-  dialAndSend is accepted by the RFC 5321 reference automaton for every script — is `C04_statement`
-  below; its proof is in progress and the run checks it on every generated script with an
-  independent judge (oracle_smtp.go).
+  The session-level theorem: the event trace of DialAndSend (and of DialWithContext) is accepted by
+  the RFC 5321 reference automaton `Smtp.judge` (Smtp/Judge.lean: 60 lines, the Lean twin of the
+  harness judge in oracle_smtp.go) for EVERY configuration, server script, capability list and batch -
+  `session_is_legal`. Then the local facts about ESMTP parameters. Each run also feeds the traces of
+  the real client to both judges (Lean and Go) and compares their verdicts.
 -/
 namespace GoMail.Props.C04
 open GoMail GoMail.Smtp
@@ -54,5 +56,28 @@ theorem mail_line_single (c : Conn) (sender : Bytes) (hs : containsCRLF sender =
   · split
     · simp only [List.any_append, Bool.or_eq_false_iff]; exact ⟨by decide, hr⟩
     · rfl
+
+/-- **The dialogue is legal under every reply script.** For every configuration (TLS policy, auth type,
+    HELO name, DSN options, NOOP check on or off), every server script - any mix of expected replies,
+    4yz, 5yz, bytes that are no reply, disconnects and stalls at any position -, every capability list
+    and every batch of messages, the commands DialAndSend emits form a legal RFC 5321 session:
+    nothing before the 220 greeting; MAIL only after an accepted EHLO/HELO and outside an open
+    transaction; RCPT only after an accepted MAIL; DATA only when at least one recipient of the
+    message was accepted and none was refused; the end-of-data marker only after 354; STARTTLS and
+    AUTH only outside a transaction; no command while a reply is outstanding (in step), none after the
+    server closed the connection. After a failed message the next one starts with no transaction open
+    or the connection is closed (that is the invariant `Between` the proof carries). -/
+theorem session_is_legal (cfg : DialCfg) (script : List Act) (caps : List Bytes) (ms : List MsgIn) :
+    Legal (dialAndSend cfg script caps ms).conn.trace ∧ Legal (dial cfg script caps).1.trace :=
+  ⟨dialAndSend_legal cfg script caps ms, dial_legal cfg script caps⟩
+
+/-- the judge is not vacuous: it rejects MAIL inside an open transaction, DATA after a refused
+    recipient, and a command before the greeting -/
+example : (judge [.connect, .reply 220, .cmd .ehlo [], .reply 250, .cmd .mail [], .reply 250, .cmd .mail []]).bad = true := by decide
+example : (judge [.connect, .reply 220, .cmd .ehlo [], .reply 250, .cmd .mail [], .reply 250, .cmd .rcpt [], .reply 550,
+    .cmd .rcpt [], .reply 250, .cmd .data []]).bad = true := by decide
+example : (judge [.connect, .cmd .ehlo []]).bad = true := by decide
+example : (judge [.connect, .reply 220, .cmd .ehlo [], .reply 250, .cmd .mail [], .reply 250, .cmd .rcpt [], .reply 250,
+    .cmd .data [], .reply 354, .eod, .reply 250, .cmd .rset [], .reply 250, .cmd .quit [], .reply 221, .close]).bad = false := by decide
 
 end GoMail.Props.C04
